@@ -1025,6 +1025,57 @@ static inline bg_edgeseq_it *bg_edgeseq_it__preinc(bg_edgeseq_it *it) {
 }
 static inline const VertexIndex *bg_max_u(const VertexIndex *a, const VertexIndex *b) { return *a < *b ? b : a; }
 
+/* --------------------------------------------- std::list<LabeledEdge<VLabel>> as constructor argument */
+static inline void bg__leseq_arrive(bg_ledgeseq_VLabel_it *it) {
+  if (BG_ESEQ_LEFT(*it) > 0) {
+    int k = nondet_int();
+    BG_ASSUME(k >= 0 && k <= 2 && (k != 0 || it->remPQ > 0) && (k != 1 || it->remQP > 0) && (k != 2 || it->remOther > 0));
+    /* list order: before any entry of the pair has been met, the orientation that comes first is met first */
+    if (it->remPQ == it->nPQ && it->remQP == it->nQP && it->nPQ > 0 && it->nQP > 0)
+      BG_ASSUME(k == 2 || (k == 0) == (it->pqBeforeQp != 0));
+    it->cur.f2.v = nondet_int();
+    if (k == 0) { it->cur.f0 = G_P; it->cur.f1 = G_Q; if (it->remPQ == it->nPQ) it->cur.f2 = it->firstPQ; }
+    else if (k == 1) { it->cur.f0 = G_Q; it->cur.f1 = G_P; if (it->remQP == it->nQP) it->cur.f2 = it->firstQP; }
+    else {
+      VertexIndex a = nondet_vertex(), b = nondet_vertex();
+      BG_ASSUME(!(a == G_P && b == G_Q) && !(a == G_Q && b == G_P) && (bg_size)a < it->bound && (bg_size)b < it->bound);
+      it->cur.f0 = a; it->cur.f1 = b;
+    }
+  }
+}
+static inline bg_ledgeseq_VLabel_it bg_ledgeseq_VLabel__begin(const bg_ledgeseq_VLabel *s) {
+  bg_ledgeseq_VLabel_it it;
+  it.remPQ = it.nPQ = s->nPQ; it.remQP = it.nQP = s->nQP; it.remOther = s->nOther; it.bound = s->bound;
+  it.firstPQ = s->firstPQ; it.firstQP = s->firstQP; it.pqBeforeQp = s->pqBeforeQp;
+  it.cur.f0 = it.cur.f1 = 0; it.cur.f2.v = 0;
+  bg__leseq_arrive(&it);
+  return it;
+}
+static inline bg_ledgeseq_VLabel_it bg_ledgeseq_VLabel__end(const bg_ledgeseq_VLabel *s) {
+  bg_ledgeseq_VLabel_it it;
+  it.remPQ = it.remQP = it.remOther = 0; it.nPQ = s->nPQ; it.nQP = s->nQP; it.bound = s->bound;
+  it.firstPQ = s->firstPQ; it.firstQP = s->firstQP; it.pqBeforeQp = s->pqBeforeQp;
+  it.cur.f0 = it.cur.f1 = 0; it.cur.f2.v = 0;
+  return it;
+}
+static inline bg_bool bg_ledgeseq_VLabel_it__eq(bg_ledgeseq_VLabel_it a, bg_ledgeseq_VLabel_it b) {
+  __CPROVER_assert(BG_ESEQ_LEFT(a) == 0 || BG_ESEQ_LEFT(b) == 0, "ABSTRACTION list<LabeledEdge> iterators are only compared with end()");
+  return BG_ESEQ_LEFT(a) == BG_ESEQ_LEFT(b);
+}
+static inline bg_bool bg_ledgeseq_VLabel_it__ne(bg_ledgeseq_VLabel_it a, bg_ledgeseq_VLabel_it b) { return !bg_ledgeseq_VLabel_it__eq(a, b); }
+static inline const bg_ledge_VLabel *bg_ledgeseq_VLabel_it__deref(const bg_ledgeseq_VLabel_it *it) {
+  BG_PRE(BG_ESEQ_LEFT(*it) > 0, "dereference end() list<LabeledEdge> iterator");
+  return &it->cur;
+}
+static inline bg_ledgeseq_VLabel_it *bg_ledgeseq_VLabel_it__preinc(bg_ledgeseq_VLabel_it *it) {
+  BG_PRE(BG_ESEQ_LEFT(*it) > 0, "increment end() list<LabeledEdge> iterator");
+  if (it->cur.f0 == G_P && it->cur.f1 == G_Q) it->remPQ--;
+  else if (it->cur.f0 == G_Q && it->cur.f1 == G_P) it->remQP--;
+  else it->remOther--;
+  bg__leseq_arrive(it);
+  return it;
+}
+
 /* --------------------------------------------- std::unordered_set<VertexIndex> (read-only use) */
 /* the element under the cursor: any of the classes still ahead */
 static inline void bg__uset_arrive(bg_uset_it *it) {
